@@ -32,6 +32,12 @@
 //!          nothing to publish
 //!   ops    `+x<k>` add_external_addr(198.51.100.<k+1>:4433)  `-x<k>` remove_external_addr
 //!          `u<k>` set_user_data_for_address_lookup(Some("u<k>"))  `u-` .. (None)
+//! payload: `EC <cfg> <ops|-> <A> <B>`: after `ops`, trigger A (`u<k>` / `u-`, run on a thread of its own)
+//!   is parked at the pause point between the snapshot and the publication inside
+//!   `Socket::publish_my_addr`; trigger B (any op) is attempted meanwhile: a user-data change on
+//!   another thread must still be inside the call after a bounded wait (`B:blocked`), an address
+//!   change through the actor must not reach the service (`B:quiet`); then A goes on and the
+//!   service's last data must be the endpoint's current data (`final=..`)
 //! model input: the payload plus `L=<0|1>`: whether the endpoint has direct addresses of its own
 //! output: per op (and first for the start) what the service was LAST given once things settled:
 //!   `ips=<L?.x<k>..> relay=<0|1> ud=<k|->` or `none`, joined by `;`
@@ -328,11 +334,28 @@ async fn observe(
     what: &str,
     ex: &mut Exec,
     outs: &mut Vec<String>,
-) -> Option<View> {
-    let empty_now = current_view(ep, ud).is_empty();
-    let _ = until(|| rec.last().as_ref() == Some(&current_view(ep, ud)), if empty_now { Duration::from_millis(150) } else { SETTLE }).await;
-    let want = current_view(ep, ud);
-    let last = rec.last();
+) -> Result<Option<View>, String> {
+    // The endpoint's own background triggers (net report settling, interface changes) may still
+    // change its data: read (endpoint view, service log, endpoint view) until the two views agree
+    // and the service holds that view — or the bounded wait is over.
+    let t0 = std::time::Instant::now();
+    let (want, last) = loop {
+        let w1 = current_view(ep, ud);
+        let last = rec.last();
+        let w2 = current_view(ep, ud);
+        let stable = w1 == w2;
+        let waited = t0.elapsed();
+        if stable && (last.as_ref() == Some(&w1) || (w1.is_empty() && waited >= Duration::from_millis(150))) {
+            break (w1, last);
+        }
+        if waited >= SETTLE {
+            if !stable {
+                return Err(format!("after {what}: the endpoint's own data kept changing during the bounded wait"));
+            }
+            break (w1, last);
+        }
+        tokio::time::sleep(STEP).await;
+    };
     outs.push(last.as_ref().map_or("none".into(), |v| v.tok()));
     if want.is_empty() {
         // nothing to publish: the code keeps quiet; the service keeps what it had
@@ -348,7 +371,7 @@ async fn observe(
             format!("after {what}: endpoint has `{}`, service was last given `{}`", want.tok(), last.as_ref().map_or("nothing".into(), |v| v.tok())),
         );
     }
-    last
+    Ok(last)
 }
 
 /// Bounded waits (real time).
@@ -356,17 +379,20 @@ const STEP: Duration = Duration::from_millis(5);
 const SETTLE: Duration = Duration::from_millis(1500);
 
 impl C30 {
-    /// `E` payloads: publish triggers on a real endpoint.
-    fn run_endpoint(&self, cfg: &str, ops: &[EOp], payload: &str) -> Exec {
+    /// `E` / `EC` payloads: publish triggers on a real endpoint.  `conc = Some((A, B))`: after
+    /// `ops`, trigger A (a user-data change on a thread of its own) is parked at the pause point
+    /// between its snapshot and its publication, trigger B is attempted meanwhile.
+    fn run_endpoint(&self, cfg: &str, ops: &[EOp], conc: Option<(EOp, EOp)>, payload: &str) -> Exec {
         use iroh::endpoint::presets;
         use iroh::{Endpoint, RelayMode};
-        let rt = match tokio::runtime::Builder::new_multi_thread().worker_threads(2).enable_all().build() {
+        let rt = match tokio::runtime::Builder::new_multi_thread().worker_threads(3).enable_all().build() {
             Ok(rt) => rt,
             Err(e) => return Exec { infra: Some(format!("runtime: {e}")), ..Default::default() },
         };
         let cfg = cfg.to_string();
         let ops = ops.to_vec();
         let payload = payload.to_string();
+        let infra = |why: String| Exec { infra: Some(why), ..Default::default() };
         rt.block_on(async move {
             let mut ex = Exec::default();
             let rec = Recorder::default();
@@ -376,7 +402,7 @@ impl C30 {
                 "ip" => {
                     builder = match builder.clear_ip_transports().bind_addr("127.0.0.1:0") {
                         Ok(b) => b.relay_mode(RelayMode::Disabled),
-                        Err(e) => return Exec { infra: Some(format!("bind_addr: {e:?}")), ..Default::default() },
+                        Err(e) => return infra(format!("bind_addr: {e:?}")),
                     };
                 }
                 "dead" => {
@@ -395,24 +421,37 @@ impl C30 {
                             .relay_mode(RelayMode::Custom(map))
                             .ca_tls_config(iroh::tls::CaTlsConfig::insecure_skip_verify());
                     }
-                    Err(e) => return Exec { infra: Some(format!("relay server: {e:?}")), ..Default::default() },
+                    Err(e) => return infra(format!("relay server: {e:?}")),
                 },
             }
             let ep = match tokio::time::timeout(Duration::from_secs(20), builder.bind()).await {
                 Ok(Ok(ep)) => ep,
-                Ok(Err(e)) => return Exec { infra: Some(format!("bind: {e:?}")), ..Default::default() },
-                Err(_) => return Exec { infra: Some("bind timed out".into()), ..Default::default() },
+                Ok(Err(e)) => return infra(format!("bind: {e:?}")),
+                Err(_) => return infra("bind timed out".into()),
             };
             if cfg == "relay" && tokio::time::timeout(Duration::from_secs(20), ep.online()).await.is_err() {
-                return Exec { infra: Some("endpoint never got online with the in-process relay".into()), ..Default::default() };
+                return infra("endpoint never got online with the in-process relay".into());
             }
             let mut ud: Option<String> = None;
             let mut outs: Vec<String> = Vec::new();
             let mut published_before: Option<View>;
-            published_before = observe(&rec, &ep, &ud, &None, "start", &mut ex, &mut outs).await;
+            macro_rules! observe_or_infra {
+                ($what:expr) => {
+                    match observe(&rec, &ep, &ud, &published_before.clone(), $what, &mut ex, &mut outs).await {
+                        Ok(v) => v,
+                        Err(why) => {
+                            ep.close().await;
+                            return infra(why);
+                        }
+                    }
+                };
+            }
+            published_before = None;
+            published_before = observe_or_infra!("start");
             let local = current_view(&ep, &ud).local;
-            for op in &ops {
-                let took = match op {
+            // an address operation through the actor; `false`: it did not show in `Endpoint::addr()`
+            async fn addr_op(ep: &Endpoint, op: &EOp) -> bool {
+                match op {
                     EOp::AddExt(k) => {
                         ep.add_external_addr(ext_addr(*k)).await;
                         until(|| ep.addr().ip_addrs().any(|a| *a == ext_addr(*k)), SETTLE).await
@@ -421,24 +460,123 @@ impl C30 {
                         ep.remove_external_addr(&ext_addr(*k)).await;
                         until(|| !ep.addr().ip_addrs().any(|a| *a == ext_addr(*k)), SETTLE).await
                     }
-                    EOp::UserData(k) => {
-                        ud = k.map(|k| format!("u{k}"));
-                        ep.set_user_data_for_address_lookup(ud.clone().map(|s| UserData::try_from(s).unwrap()));
-                        true
+                    EOp::UserData(_) => true,
+                }
+            }
+            let ud_of = |k: &Option<u64>| k.map(|k| format!("u{k}"));
+            let to_user_data = |u: &Option<String>| u.clone().map(|s| UserData::try_from(s).unwrap());
+            for op in &ops {
+                if let EOp::UserData(k) = op {
+                    ud = ud_of(k);
+                    ep.set_user_data_for_address_lookup(to_user_data(&ud));
+                } else if !addr_op(&ep, op).await {
+                    ep.close().await;
+                    return infra(format!("{op:?} did not show in Endpoint::addr() within the bounded wait"));
+                }
+                published_before = observe_or_infra!(&format!("{op:?}"));
+            }
+            if let Some((a, b)) = &conc {
+                let EOp::UserData(ka) = a else { unreachable!() };
+                // ---- trigger A on a thread of its own, parked between snapshot and publication ----
+                let (ev_tx, ev_rx) = channel::<Ev>();
+                let (resume_tx, resume_rx) = channel::<()>();
+                let ep_a = ep.clone();
+                let ud_a = to_user_data(&ud_of(ka));
+                let handle_a = std::thread::spawn(move || {
+                    let tx = ev_tx.clone();
+                    pause::set(Some(Box::new(move |name| {
+                        if name == "publish_my_addr:publish" {
+                            let _ = tx.send(Ev::Reached(name));
+                            let _ = resume_rx.recv();
+                        }
+                    })));
+                    ep_a.set_user_data_for_address_lookup(ud_a);
+                    pause::set(None);
+                    let _ = ev_tx.send(Ev::Done);
+                });
+                ud = ud_of(ka);
+                let parked = match ev_rx.recv_timeout(Duration::from_secs(5)) {
+                    Ok(Ev::Reached(_)) => true,
+                    Ok(Ev::Done) => false,
+                    Err(_) => {
+                        return infra("trigger A neither reached its pause point nor finished".into());
                     }
                 };
-                if !took {
-                    ep.close().await;
-                    return Exec { infra: Some(format!("{op:?} did not show in Endpoint::addr() within the bounded wait")), ..Default::default() };
+                outs.push(if parked { "A:parked".into() } else { "A:done".to_string() });
+                // ---- trigger B ----
+                const ATTEMPT: Duration = Duration::from_millis(120);
+                let log_len = rec.0.lock().unwrap().len();
+                let mut handle_b = None;
+                match b {
+                    EOp::UserData(kb) => {
+                        let ep_b = ep.clone();
+                        let ud_b = to_user_data(&ud_of(kb));
+                        let (done_tx, done_rx) = channel::<()>();
+                        handle_b = Some(std::thread::spawn(move || {
+                            ep_b.set_user_data_for_address_lookup(ud_b);
+                            let _ = done_tx.send(());
+                        }));
+                        ud = ud_of(kb);
+                        if parked {
+                            // B's publication must wait for A: the thread is still inside the call
+                            let finished = done_rx.recv_timeout(ATTEMPT).is_ok();
+                            outs.push(if finished { "B:done".into() } else { "B:blocked".to_string() });
+                        } else {
+                            outs.push("B:run".into());
+                        }
+                    }
+                    op => {
+                        if !addr_op(&ep, op).await {
+                            let _ = resume_tx.send(());
+                            ep.close().await;
+                            return infra(format!("{op:?} did not show in Endpoint::addr() within the bounded wait"));
+                        }
+                        if parked {
+                            // the actor's publication must wait for A: nothing new reaches the service
+                            tokio::time::sleep(ATTEMPT).await;
+                            let grew = rec.0.lock().unwrap().len() > log_len;
+                            outs.push(if grew { "B:passed".into() } else { "B:quiet".to_string() });
+                        } else {
+                            outs.push("B:run".into());
+                        }
+                    }
                 }
-                published_before = observe(&rec, &ep, &ud, &published_before.clone(), &format!("{op:?}"), &mut ex, &mut outs).await;
+                // ---- A goes on; everything finishes ----
+                if parked {
+                    let _ = resume_tx.send(());
+                    if !matches!(ev_rx.recv_timeout(Duration::from_secs(5)), Ok(Ev::Done)) {
+                        return infra("trigger A did not finish after being resumed".into());
+                    }
+                }
+                let _ = handle_a.join();
+                if let Some(h) = handle_b {
+                    let t0 = std::time::Instant::now();
+                    while !h.is_finished() && t0.elapsed() < Duration::from_secs(5) {
+                        tokio::time::sleep(STEP).await;
+                    }
+                    if !h.is_finished() {
+                        ex.violation("trigger-stuck", "trigger B never finished after A released the lock");
+                    } else {
+                        let _ = h.join();
+                    }
+                }
+                // what the services hold now must be the endpoint's current data
+                let n = outs.len();
+                // (two triggers ran: if the data ended all-empty, what the services keep is whatever
+                // the earlier of them published — the comparison with the model checks that)
+                published_before = rec.last();
+                published_before = observe_or_infra!("concurrent triggers");
+                let fin = outs.pop().unwrap();
+                debug_assert_eq!(outs.len() + 1, n + 1);
+                outs.push(format!("final={fin}"));
+                let _ = &published_before;
             }
             ep.close().await;
             drop(relay_guard);
             ex.out = outs.join(";");
             ex.model_input = Some(format!("{payload} L={}", local as u8));
-            ex.nontrivial = !ops.is_empty();
-            ex.tags.push(format!("E-{cfg}"));
+            ex.nontrivial = !ops.is_empty() || conc.is_some();
+            ex.tags.push(format!("{}-{cfg}", if conc.is_some() { "EC" } else { "E" }));
             ex
         })
     }
@@ -779,6 +917,46 @@ impl Prop for C30 {
         ] {
             out.push(p.to_string());
         }
+        // concurrent triggers: A parked between snapshot and publication, B attempted
+        for p in [
+            "EC ip u0 u1 u2",
+            "EC ip u0 u1 +x1",
+            "EC relay +x1 u1 -x1",
+            "EC relay - u1 +x2",
+            "EC dead - u1 u2",
+            "EC dead - u1 +x1",
+            "EC dead - u- u2",
+            "EC ip u1 u1 u2",
+            "EC relay u3 u4 u4",
+            "EC dead +x1,u1 u- -x1",
+            "EC ip - +x1 u1",
+            "EC ip - u1 u1,u2",
+        ] {
+            out.push(p.to_string());
+        }
+        let n_ec = if tier == Tier::Thorough { 120 } else { 15 };
+        for i in 0..n_ec {
+            let cfg = ["ip", "relay", "dead"][i % 3];
+            let mut pre: Vec<String> = Vec::new();
+            let mut present: Vec<u64> = Vec::new();
+            for _ in 0..rng.below(3) {
+                if rng.bool() {
+                    let k = rng.below(3);
+                    present.push(k);
+                    pre.push(format!("+x{k}"));
+                } else {
+                    pre.push(format!("u{}", rng.below(3)));
+                }
+            }
+            let a = if rng.chance(1, 6) { "u-".to_string() } else { format!("u{}", 3 + rng.below(3)) };
+            let b = match rng.below(4) {
+                0 => format!("u{}", 6 + rng.below(3)),
+                1 if !present.is_empty() => format!("-x{}", rng.pick(&present)),
+                2 => "u-".to_string(),
+                _ => format!("+x{}", 3 + rng.below(2)),
+            };
+            out.push(format!("EC {cfg} {} {a} {b}", if pre.is_empty() { "-".into() } else { pre.join(",") }));
+        }
         let n_e = if tier == Tier::Thorough { 240 } else { 30 };
         for i in 0..n_e {
             let cfg = ["relay", "dead", "ip"][i % 3];
@@ -892,7 +1070,17 @@ impl Prop for C30 {
         let t: Vec<&str> = payload.split_whitespace().collect();
         if let ["E", cfg, ops] = t[..] {
             return match (matches!(cfg, "ip" | "relay" | "dead"), parse_eops(ops)) {
-                (true, Some(ops)) => self.run_endpoint(cfg, &ops, payload),
+                (true, Some(ops)) => self.run_endpoint(cfg, &ops, None, payload),
+                _ => Exec::new("bad-payload").tag("malformed"),
+            };
+        }
+        if let ["EC", cfg, ops, a, b] = t[..] {
+            let ab = match (parse_eops(a).as_deref(), parse_eops(b).as_deref()) {
+                (Some([a @ EOp::UserData(_)]), Some([b])) => Some((a.clone(), b.clone())),
+                _ => None,
+            };
+            return match (matches!(cfg, "ip" | "relay" | "dead"), parse_eops(ops), ab) {
+                (true, Some(ops), Some(ab)) => self.run_endpoint(cfg, &ops, Some(ab), payload),
                 _ => Exec::new("bad-payload").tag("malformed"),
             };
         }
